@@ -22,7 +22,7 @@ def features(sql, dialect):
     f = {"mixed_comma_join_names": set(), "select_subquery_tables": set(), "lateral_view_aliases": set(),
          "rename_old": set(), "rename_new": set(), "having_subquery_tables": set(), "parsed": False,
          "stmt_types": [], "same_alias_subqueries": set(), "case_subquery": False, "n_rename_pairs": 0,
-         "case_subquery_aliases": set(), "subquery_aliases": set(), "select_has_subquery": False, "same_text_subqueries": False, "nested_group_first_aliases": set(), "cte_paren_setop_names": set(), "where_has_subquery": False, "select_subquery_aliases": set(), "fullname_schemas": set(), "select_subquery_fullname_schemas": set(), "repeated_subquery_item_aliases": set(), "update_first_table_aliases": set(), "table_function_aliases": set()}
+         "case_subquery_aliases": set(), "subquery_aliases": set(), "select_has_subquery": False, "same_text_subqueries": False, "nested_group_first_aliases": set(), "cte_paren_setop_names": set(), "where_has_subquery": False, "select_subquery_aliases": set(), "fullname_schemas": set(), "select_subquery_fullname_schemas": set(), "select_subquery_window_expr_tables": set(), "repeated_subquery_item_aliases": set(), "update_first_table_aliases": set(), "table_function_aliases": set()}
     try:
         tree = Linter(config=FluffConfig(overrides={"dialect": d})).parse_string(sql).tree
     except Exception:
@@ -116,6 +116,14 @@ def features(sql, dialect):
     for sce in tree.recursive_crawl("select_clause_element"):
         for sub in sce.recursive_crawl("select_statement"):
             f["select_subquery_fullname_schemas"] |= first_of_full(sub)
+            # a window function inside the sub-query whose argument is more than a plain column reference
+            for fn in sub.recursive_crawl("function"):
+                if fn.get_child("over_clause") is not None:
+                    fc = fn.get_child("function_contents") or fn
+                    br = fc.get_child("bracketed")
+                    arg = br.raw.strip()[1:-1].strip() if br is not None else ""
+                    if arg and not re.fullmatch(r"(?:distinct\s+)?[\w.\"`\[\]]+|\*", arg, re.I):
+                        f["select_subquery_window_expr_tables"] |= tables_in(sub)
     for hv in tree.recursive_crawl("having_clause"):
         for sub in hv.recursive_crawl("select_statement"):
             f["having_subquery_tables"] |= tables_in(sub)
